@@ -313,48 +313,6 @@ func main() {
 			c.NonTrivial()
 		}
 	})
-	// tile lists and sets as feature collections: one polygon feature per tile, the tile's bound, in list order
-	r.Explore("to-feature-collection", fmt.Sprintf("every tile of the %d small tiles with its children and siblings as Tiles and as a Set: ToFeatureCollection has one feature per tile whose geometry is the closed 5-point ring of the tile's bound (list order for Tiles, every tile exactly once for a Set)", len(small)), mc.Opts{MaxDev: -1, Split: 1}, func(c *mc.Ctx) {
-		t := small[c.Choose(len(small))]
-		list := append(maptile.Tiles{t}, t.Children()...)
-		list = append(list, t.Siblings()...)
-		poly := func(x maptile.Tile) orb.Polygon {
-			b := x.Bound()
-			return orb.Polygon{{b.Min, {b.Max[0], b.Min[1]}, b.Max, {b.Min[0], b.Max[1]}, b.Min}}
-		}
-		fc := list.ToFeatureCollection()
-		if fc == nil || len(fc.Features) != len(list) {
-			c.Failf("to-feature-collection", "Tiles.ToFeatureCollection of %d tiles has %d features", len(list), len(fc.Features))
-			return
-		}
-		for i, f := range fc.Features {
-			if !orb.Equal(f.Geometry, poly(list[i])) {
-				c.Failf("to-feature-collection", "feature %d = %v, the bound of tile %v is %v", i, f.Geometry, list[i], poly(list[i]))
-				return
-			}
-		}
-		set := maptile.Set{}
-		for _, x := range list {
-			set[x] = true
-		}
-		sfc := set.ToFeatureCollection()
-		if len(sfc.Features) != len(set) {
-			c.Failf("to-feature-collection", "Set.ToFeatureCollection of %d tiles has %d features", len(set), len(sfc.Features))
-			return
-		}
-		for x := range set {
-			n := 0
-			for _, f := range sfc.Features {
-				if orb.Equal(f.Geometry, poly(x)) {
-					n++
-				}
-			}
-			if n != 1 {
-				c.Failf("to-feature-collection", "Set.ToFeatureCollection holds the bound of tile %v %d times", x, n)
-			}
-		}
-		c.NonTrivial()
-	})
 	r.Explore("range", fmt.Sprintf("every tile of zoom 0..%d x every target zoom 0..%d: Range is the ancestor / exactly the descendants, ChildrenInZoomRange lists each descendant once", zp, zp+5), mc.Opts{MaxDev: -1, Split: 1}, func(c *mc.Ctx) {
 		t := small[c.Choose(len(small))]
 		z := maptile.Zoom(c.Choose(zp + 6))
